@@ -49,3 +49,11 @@ Print Assumptions C04_det.
 Theorem C04_object_layout : all_compat true object_layout rt_structs = true.
 Proof. vm_compute. reflexivity. Qed.
 Print Assumptions C04_object_layout.
+
+(* #[skip_func]: the definitions the generator works from are the trait without the skipped methods — a skipped method has no slot, no wrapper and
+   no forwarding method (its row is [-9; 0; 0; 0]), and the rows of all other methods, slot positions included, are those of the trait without it *)
+Theorem C04_skip_func : forall p rows ms, dec_methods (exported rows) = Some ms ->
+  strip_skipped rows (run_gen p rows) = run_gen p (exported rows) /\
+  (forall k r, nth_error rows k = Some r -> is_skipped r = true -> nth_error (run_gen p rows) k = Some [-9; 0; 0; 0]).
+Proof. exact skip_func_rows. Qed.
+Print Assumptions C04_skip_func.
